@@ -51,6 +51,7 @@ PROPS = {
                    "on a writer whose finalize failed and was not retried is outside the property (modelled as WriteTorn)",
         technique="exhaustive fault enumeration on the real writer, each run validated by TLC against the TLA+ writer specification",
         mc=[dict(module="MC_Faults", quick="MC_Faults.cfg", thorough="MC_Faults_T.cfg", workers=8)],
+        proofs=["WriterDirty"],
         stages=[dict(cmd="faults", spec="Trace_Writer",
                      quick=dict(chunks=8, types=13, hists=1),
                      thorough=dict(chunks=16, types=13, hists=6))],
@@ -204,7 +205,8 @@ PROPS = {
                    "evaluated on the real bytes at every finalize and drop",
         level_note="trusted: TLC, the instrumented destinations; bounded history length; in-memory destinations",
         technique=TECH_TRACE,
-        mc=[WRITER_MC], stages=[WRITER_STAGE],
+        mc=[WRITER_MC], proofs=["WriterDirty"],
+        stages=[WRITER_STAGE],
         rule="a run = one history of calls on a fresh real writer (type x index-destination x history x ending in drop / "
              "finalize+drop / write_shapes); distinct = distinct (type, withShx, history) triples",
     ),
@@ -315,6 +317,7 @@ PROPS = {
                    "no claim on the header M range of multipatch files and of files containing no-data measures (as the property says)",
         technique=TECH_TRACE,
         mc=[WRITER_MC, CODEC_MC],
+        proofs=["WriterBox"],
         stages=[dict(cmd="codec", spec="Trace_Codec",
                      quick=dict(chunks=6, cases=10, large=1, nonan=1),
                      thorough=dict(chunks=16, cases=60, large=6, sweep=1, nonan=1)),
@@ -378,14 +381,18 @@ PROPS = {
 
 # sentences added to the level texts as the drivers grew (rounds 4 and 5 of the seeded changes, DESIGN 10.5)
 LEVEL_TEXT_ADDENDA = {
+    "C12": "; UNBOUNDED: TLAPS proves (spec/proofs/WriterDirty) that a finalize failing anywhere leaves the writer dirty, so the retry rewrites both headers",
     "C01": "; read-back also through the Iterator adaptors nth/count/last; a size-threshold sweep (serialised sizes on and next to powers of two); files on disk under lower-case, upper-case and dotted names",
     "C02": "; destinations handed over with their cursor away from 0; record numbers and lengths after writes that failed cleanly",
     "C03": "; every generated file is also read by path and through read_shapes; stored boxes that are all-zero or partly zero",
-    "C05": "; fault runs: a write that failed before emitting a byte must not count for the header box",
+    "C05": "; fault runs: a write that failed before emitting a byte must not count for the header box; UNBOUNDED: TLAPS proves "
+           "(spec/proofs/WriterBox, 135 obligations) that for any number of shapes the incrementally grown range is exactly the "
+           "least low end / greatest high end of the shapes written and is unset exactly when none was",
     "C07": "; the same inputs as files on disk through ShapeReader::from_path and read_shapes",
     "C17": "; by-path opens and reads are measured as well",
     "C08": "; 1 100 pairs in one file (beyond any pre-allocation cap), in memory and by path; file names with upper-case extension and dotted stems",
-    "C09": "; histories may end with the writer going out of scope during the unwinding of a caller's panic; histories that reach 255/256/257/512 uncommitted records",
+    "C09": "; UNBOUNDED: TLAPS proves (spec/proofs/WriterDirty, 29 obligations) the dirty-flag protocol for any history: a clean "
+           "writer's headers are current, so the silent finalize / drop is safe, and io = dirty; histories may end with the writer going out of scope during the unwinding of a caller's panic; histories that reach 255/256/257/512 uncommitted records",
     "C10": "; refused writes after 255/256/257/512 uncommitted records",
     "C14": "; every layout also as a .shp/.shx pair on disk (from_path iteration and random access, read_shapes, read_shapes_as); an index of 1 500 entries",
     "C16": "; one trace file concretises X/Y as neighbouring doubles (ends one or two ulps apart are open)",
